@@ -27,6 +27,7 @@ def main():
     os.environ["VERIF_TIER"] = tier
     spec = importlib.import_module("props." + pid)
     run = Run(pid, tier, seed)
+    run.canaries = getattr(spec, "CANARIES", {})
     obs = spec.obligations(tier)
     zobs = spec.smt_obligations(tier) if hasattr(spec, "smt_obligations") else []
     run.execute(obs, zobs, jobs=int(os.environ.get("VERIF_JOBS", "16")))
